@@ -1580,6 +1580,10 @@ M('C11', 'original defect: make_U_I orders the raw identity indices', 'tenpy/net
   "            IdL = IdL % U1.shape[1]  # (stored indices may count from the end, e.g. -1 after `+`)\n            IdR = IdR % U1.shape[1]\n", "",
   'ID-normalised')
 
+M('C19', 'original defect: default add_positions of IrregularLattice allocated with lattice.dim columns', 'tenpy/models/lattice.py',
+  "add_positions = np.zeros((len(add_unit_cell), regular_lattice.unit_cell_positions.shape[1]))", "add_positions = np.zeros((len(add_unit_cell), regular_lattice.dim))",
+  'GEOM-position-space')
+
 M('C02', 'original defect: iswapaxes re-binds _qdata to an F-contiguous column selection', NPC,
   "        self._qdata = np.array(self._qdata[:, swap], order='C')  # (column selection is F-contiguous)", "        self._qdata = self._qdata[:, swap]",
   'QDATA-contiguous')
